@@ -939,6 +939,8 @@ impl<V: PoseidonVariant, F: Field + Send + Sync + 'static> NonPrimitiveExecutor<
 
         // D=1 non-Merkle: base trace row (`width` limbs, or `width_ext+2` with empty MMCS tail).
         if self.config.d() == 1 && !self.merkle_path {
+            // A sponge row consumes no private data: attached data is a caller mistake.
+            self.resolve_private_data(ctx)?;
             return self.execute_base(inputs, outputs, ctx, exec.as_ref());
         }
 
